@@ -346,7 +346,8 @@ def search(ctx):
 def replay(ctx, rp):
     sc = rp.get('case')
     if not sc or 'roots' not in sc:
-        return False
+        from harness.check import NotReplayable
+        raise NotReplayable('no scenario in the replay file')
     tr, info = dsl.run_scenario(sc)
     bad = mon_yields(sc, tr, None, info) if any(e[1] == 1 and e[2] == 100 for e in tr) else []
     for b in bad:
